@@ -34,12 +34,28 @@ package xmpp
 // attribute list (uninterpreted; tied to the code by the defines clause).
 //@ spec idOf(attrs []xml.Attr) string
 //@ spec typOf(attrs []xml.Attr) string
+//@ spec unq(a xml.Attr, local string) bool = a.Name.Space == "" && a.Name.Local == local
 //@ func getIDTyp
 //@   defines result2 == idOf(attrs) && result3 == typOf(attrs)
 //@   ensures -1 <= result0 && result0 < len(attrs)
 //@   ensures -1 <= result1 && result1 < len(attrs)
+// the id and the type of a stanza are its attributes of these names in no
+// namespace: a prefixed attribute of some other namespace (x:id, x:type) is
+// neither; both are found whenever they are present
+//@   ensures[C07] result0 >= 0 ==> unq(attrs[result0], "id") && result2 == attrs[result0].Value
+//@   ensures[C07] result1 >= 0 ==> unq(attrs[result1], "type") && result3 == attrs[result1].Value
+//@   ensures[C07] result0 == -1 ==> result2 == ""
+//@   ensures[C07] result1 == -1 ==> result3 == ""
+//@   ensures[C07] (exists k int :: 0 <= k && k < len(attrs) && unq(attrs[k], "id")) ==> result0 >= 0
+//@   ensures[C07] (exists k int :: 0 <= k && k < len(attrs) && unq(attrs[k], "type")) ==> result1 >= 0
 //@   loop 1
 //@     invariant -1 <= idIdx && idIdx < len(attrs) && -1 <= typIdx && typIdx < len(attrs)
+//@     invariant[C07] idIdx >= 0 ==> unq(attrs[idIdx], "id") && id == attrs[idIdx].Value
+//@     invariant[C07] typIdx >= 0 ==> unq(attrs[typIdx], "type") && typ == attrs[typIdx].Value
+//@     invariant[C07] idIdx == -1 ==> id == ""
+//@     invariant[C07] typIdx == -1 ==> typ == ""
+//@     invariant[C07] (exists k int :: 0 <= k && k <= rangeindex && unq(attrs[k], "id")) ==> idIdx >= 0
+//@     invariant[C07] (exists k int :: 0 <= k && k <= rangeindex && unq(attrs[k], "type")) ==> typIdx >= 0
 
 // ---------------------------------------------------------------------------
 // C03: the authenticated bit is only set by a completed, accepted exchange
